@@ -29,7 +29,8 @@ import (
 
 // Client is one exporter-side peer. Behaviour: all (send everything, close), abrupt (send N
 // messages, then half a message, close), idle (send N messages, stay connected), dribble (send in
-// 1..7-byte writes).
+// 1..7-byte writes), silent (tcp/tls: a raw TCP connection that never sends a byte - on a TLS
+// collector not even a handshake - and is still open when Stop is called).
 type Client struct {
 	Behaviour string `json:"behaviour"`
 	N         int    `json:"n"`
@@ -61,6 +62,14 @@ func TestMain(m *testing.M) {
 	ca = glue.NewCA("verif CA")
 	srvCert = ca.LoopbackServer()
 	if rp := ev.LoadReplay(); rp != nil {
+		if rp.Phase == "quiet_connection" {
+			ev.RunReplay(rp, func(q struct {
+				Proto  string  `json:"proto"`
+				QuietS float64 `json:"quiet_s"`
+			}) *ev.Failure {
+				return runQuiet(q.Proto, time.Duration(q.QuietS*float64(time.Second)))
+			})
+		}
 		ev.RunReplay(rp, func(c Case) *ev.Failure { f, _ := runCase(c); return f })
 	}
 	rec = ev.New("C12", "generated multi-client sessions against a library collector over real loopback sockets under the race detector: 1..24 concurrent clients x 0..60 messages each (a template, then data messages carrying (client, index) in observation domain / sequence number), behaviours {send all and close, abrupt close in the middle of a message, stay idle, dribble in 1..7-byte writes} x {tcp, udp, tls} x GOMAXPROCS {2,4,16}, Stop after the traffic or during it; oracle: per client the delivered indices are exactly 0..n-1 in order (tcp/tls) or an increasing subsequence without duplicates (udp), nothing that was never sent, connection count back to 0 after the clients disconnect (tcp/tls), Stop returns, no collector goroutine and no listening socket remains; non-trivial = at least 3 clients with at least 5 messages each, overlapping in time; distinct by hash of the case",
@@ -163,7 +172,9 @@ func runCase(c Case) (*ev.Failure, bool) {
 	var active atomic.Int32
 	var peak atomic.Int32
 		var cw, writers sync.WaitGroup
-	release := make(chan struct{}) // idle clients close when released
+	release := make(chan struct{})   // idle clients close when released
+	afterStop := make(chan struct{}) // silent clients stay connected until Stop has returned
+	var silentUp atomic.Int32
 	for ci, cl := range c.Clients {
 		cw.Add(1)
 		writers.Add(1)
@@ -179,6 +190,17 @@ func runCase(c Case) (*ev.Failure, bool) {
 			defer finishedWriting()
 			var conn net.Conn
 			var err error
+			if cl.Behaviour == "silent" && c.Proto != "udp" {
+				finishedWriting()
+				raw, err := net.Dial("tcp", addr)
+				if err != nil {
+					return
+				}
+				silentUp.Add(1)
+				<-afterStop
+				raw.Close()
+				return
+			}
 			switch c.Proto {
 			case "tls":
 				roots := x509.NewCertPool()
@@ -242,7 +264,6 @@ func runCase(c Case) (*ev.Failure, bool) {
 		sleepUs(c.StopAfterUs)
 		doStop()
 		close(release)
-		cw.Wait()
 	} else {
 		// wait until every client has written what it is going to write, then until every complete
 		// message of the stream transports was delivered
@@ -268,17 +289,19 @@ func runCase(c Case) (*ev.Failure, bool) {
 			time.Sleep(20 * time.Millisecond)
 		}
 		close(release)
-		cw.Wait()
 		if c.Proto != "udp" {
-			for end := time.Now().Add(30 * time.Second); cp.GetNumConnToCollector() != 0; time.Sleep(500 * time.Microsecond) {
+			for end := time.Now().Add(30 * time.Second); cp.GetNumConnToCollector() > int64(silentUp.Load()); time.Sleep(500 * time.Microsecond) {
 				if time.Now().After(end) {
-					return ev.Failf("all %d clients disconnected, the collector still counts %d connections after 30 s", len(c.Clients), cp.GetNumConnToCollector()), peak.Load() >= 3
+					return ev.Failf("all clients but the %d silent ones disconnected, the collector still counts %d connections after 30 s", silentUp.Load(), cp.GetNumConnToCollector()), peak.Load() >= 3
 				}
 			}
 		}
 		doStop()
 	}
-	if f := <-stopErr; f != nil {
+	f := <-stopErr
+	close(afterStop)
+	cw.Wait()
+	if f != nil {
 		return f, peak.Load() >= 3
 	}
 	select {
@@ -407,7 +430,7 @@ func genCase(t *rapid.T) Case {
 	c := Case{Proto: rapid.SampledFrom([]string{"tcp", "tcp", "udp", "tls"}).Draw(t, "proto"), Procs: rapid.SampledFrom([]int{2, 4, 16}).Draw(t, "procs")}
 	n := rapid.IntRange(1, 24).Draw(t, "clients")
 	for i := 0; i < n; i++ {
-		cl := Client{Behaviour: rapid.SampledFrom([]string{"all", "all", "all", "abrupt", "idle", "dribble"}).Draw(t, "behaviour"),
+		cl := Client{Behaviour: rapid.SampledFrom([]string{"all", "all", "all", "abrupt", "idle", "dribble", "silent"}).Draw(t, "behaviour"),
 			N: rapid.IntRange(0, 60).Draw(t, "n"), PauseUs: rapid.SampledFrom([]int{0, 0, 0, 10, 100}).Draw(t, "pause")}
 		if cl.Behaviour == "dribble" && cl.N > 8 {
 			cl.N = 8
@@ -421,7 +444,104 @@ func genCase(t *rapid.T) Case {
 	return c
 }
 
+// runQuiet: a connection that delivered a message and then stays connected but quiet for Quiet must
+// still be counted, and its next message must be delivered (meanwhile another client keeps sending).
+func runQuiet(proto string, quiet time.Duration) *ev.Failure {
+	in := collector.CollectorInput{Address: "127.0.0.1:0", Protocol: "tcp", MaxBufferSize: 65535}
+	if proto == "tls" {
+		in.IsEncrypted, in.ServerCert, in.ServerKey = true, srvCert.CertPEM, srvCert.KeyPEM
+	}
+	cp, err := collector.InitCollectingProcess(in)
+	if err != nil {
+		return ev.Failf("InitCollectingProcess: %v", err)
+	}
+	go cp.Start()
+	for i := 0; i < 3000 && cp.GetAddress() == nil; i++ {
+		time.Sleep(time.Millisecond)
+	}
+	var mu sync.Mutex
+	got := map[uint32]int{}
+	stop := make(chan struct{})
+	done := make(chan struct{})
+	go func() {
+		defer close(done)
+		for {
+			select {
+			case m := <-cp.GetMsgChan():
+				mu.Lock()
+				got[m.GetObsDomainID()]++
+				mu.Unlock()
+			case <-stop:
+				return
+			}
+		}
+	}()
+	defer func() { cp.Stop(); close(stop); <-done }()
+	dial := func() (net.Conn, error) {
+		if proto == "tls" {
+			roots := x509.NewCertPool()
+			roots.AppendCertsFromPEM(ca.CertPEM)
+			return tls.Dial("tcp", cp.GetAddress().String(), &tls.Config{RootCAs: roots, ServerName: "localhost"})
+		}
+		return net.Dial("tcp", cp.GetAddress().String())
+	}
+	a, err := dial()
+	if err != nil {
+		return nil
+	}
+	defer a.Close()
+	b, err := dial()
+	if err != nil {
+		return nil
+	}
+	defer b.Close()
+	a.Write(message(0, 0))
+	a.Write(message(0, 1))
+	b.Write(message(1, 0))
+	for end, k := time.Now().Add(quiet), 1; time.Now().Before(end); k++ {
+		b.Write(message(1, k))
+		time.Sleep(250 * time.Millisecond)
+		if n := cp.GetNumConnToCollector(); n != 2 {
+			return ev.Failf("a connected client that has been quiet for %v is no longer counted (%d connections, 2 clients are connected)", time.Since(end.Add(-quiet)).Round(100*time.Millisecond), n)
+		}
+	}
+	if _, err := a.Write(message(0, 2)); err != nil {
+		return ev.Failf("after %v of silence the collector had closed a healthy connection: %v", quiet, err)
+	}
+	for end := time.Now().Add(10 * time.Second); ; time.Sleep(time.Millisecond) {
+		mu.Lock()
+		n := got[1]
+		mu.Unlock()
+		if n >= 3 {
+			return nil
+		}
+		if time.Now().After(end) {
+			return ev.Failf("a message sent after %v of silence on a connection that was never closed was not delivered (%d of 3 delivered)", quiet, n)
+		}
+	}
+}
+
 func TestC12(t *testing.T) {
+	// once per run: a connection that stays quiet for a while (6 s; 20 s in the thorough tier)
+	if ev.Shard() <= 1 {
+		quiet := 6 * time.Second
+		if rec.Thorough() {
+			quiet = 20 * time.Second
+		}
+		for _, proto := range []string{"tcp", "tls"} {
+			proto := proto
+			var f *ev.Failure
+			t.Run("quiet_"+proto, func(t *testing.T) {
+				t.Parallel()
+				f = runQuiet(proto, quiet)
+				rec.Case(ev.Hash([]any{"quiet", proto}), true, "quiet_connection")
+				if f != nil {
+					rec.Violation("quiet_connection", map[string]any{"proto": proto, "quiet_s": quiet.Seconds()}, f.Msg)
+					t.Errorf("%s", f.Msg)
+				}
+			})
+		}
+	}
 	n := rec.Scale(400, 40000)
 	g := rapid.Custom(genCase)
 	for i := 0; i < n; i++ {
